@@ -1605,6 +1605,27 @@ def rule_own(rows, prop):
                         findings.append(finding("R-OWN.vector.grow", prop, r, d["b"], "old buffer is freed before its old_size elements are copied into the new buffer", d.get("line")))
                 if not deallocs:
                     findings.append(finding("R-OWN.vector.grow", prop, r, "resize", "growing path never frees the old buffer"))
+            if short == "resize":
+                # std::vector semantics: the elements that come into existence, [old size, new size), are value-initialised
+                locs_r, _ = single_def_locals(r)
+                fills_ = []
+                for f in facts:
+                    m_ = re.fullmatch(r"this\.buffer_\[%(\w+)\]", f["a"]) if f["k"] == "assign" else None
+                    if m_ and re.fullmatch(r"[\w:<>, ]*\{\}|0|\w+\(\)", f["b"].strip()):
+                        iv_ = m_.group(1)
+                        first_def = next((x["b"] for x in facts if x["k"] == "local" and x["a"] == iv_), "")   # the induction variable's initial value
+                        start_ = subst_locals(first_def, locs_r).replace(" ", "")
+                        bounded = any(op_ == "<" and a_ == "%" + iv_ and b_ == "$new_size" for (op_, a_, b_) in _cmp_guards(f))
+                        if bounded and start_ in ("this.size_", "%old_size"):
+                            fills_.append(f)
+                if not fills_:
+                    findings.append(finding("R-OWN.vector.resize_init", prop, r, "resize", "elements that come into existence when the vector grows are not value-initialised (no `buffer_[i] = T{}` for i from the old size up to new_size): unlike std::vector the new elements hold stale or uninitialised memory"))
+            if is_ctor and [p["name"] for p in r["params"]] == ["N"]:
+                # a sized constructor must grow from empty (size_ 0, then resize(N)) or initialise its N elements itself
+                grows = inits.get("size_", "").strip() == "0" and any(f["k"] == "call" and f["b"].replace(" ", "") == "this.resize($N)" for f in facts)
+                fills = any(f["k"] == "assign" and re.fullmatch(r"this\.buffer_\[%\w+\]", f["a"]) and re.fullmatch(r"[\w:<>, ]*\{\}|0|\w+\(\)", f["b"].strip()) for f in facts)
+                if not (grows or fills):
+                    findings.append(finding("R-OWN.vector.resize_init", prop, r, "vector(N)", "vector(N) does not value-initialise its N elements (size_ starts at %s, so resize(N) sees nothing to initialise): std::vector<T>(N) holds N zeros" % inits.get("size_", "?")))
             if is_dtor:
                 if not deallocs:
                     findings.append(finding("R-OWN.vector.dtor", prop, r, "~vector", "destructor never deallocates buffer_"))
